@@ -329,9 +329,15 @@ func requeuerScenario(fromMeta bool, delay time.Duration, n, f, c int) *explore.
 		sub := hx.NewScriptSub("in", map[string][]*message.Message{"poison": script})
 		sub.Redeliver = 1
 		dest := faultyDest("dest", 2)
+		noTopic := map[*message.Message]bool{}
 		rq, err := requeuer.NewRequeuer(requeuer.Config{
 			Subscriber: sub, SubscribeTopic: "poison", Publisher: dest, Delay: delay,
 			GeneratePublishTopic: func(p requeuer.GeneratePublishTopicParams) (string, error) {
+				// the destination may be impossible to compute for a delivery (a fault like a failing destination)
+				if vs.Choose(2, 1, "topic generator fails") == 1 {
+					noTopic[p.Message] = true
+					return "", fmt.Errorf("no destination for this message")
+				}
 				if fromMeta {
 					return p.Message.Metadata.Get("return-to"), nil
 				}
@@ -392,6 +398,14 @@ func requeuerScenario(fromMeta bool, delay time.Duration, n, f, c int) *explore.
 		for _, d := range sub.Snapshot() {
 			st := hx.SettlementOf(d.Msg)
 			c := byMsg[d.Msg]
+			if c == nil && noTopic[d.Msg] {
+				// no destination could be computed for this delivery: nothing accepted it, so it is not acknowledged
+				if st != "nacked" {
+					vs.Fail("settlement", "requeuer: no destination topic for %s (copy #%d), yet the consumed message is %s", d.UUID, d.Attempt, st)
+				}
+				desc += fmt.Sprintf("%s#%d:%s(no topic) ", d.UUID, d.Attempt, st)
+				continue
+			}
 			if c == nil {
 				vs.Fail("relay", "requeuer: consumed copy of %s never reached the destination", d.UUID)
 				continue
@@ -405,7 +419,7 @@ func requeuerScenario(fromMeta bool, delay time.Duration, n, f, c int) *explore.
 			}
 			desc += fmt.Sprintf("%s#%d:%s ", d.UUID, d.Attempt, st)
 		}
-		if delay > 0 && len(calls) != len(sub.Snapshot()) {
+		if delay > 0 && len(calls)+len(noTopic) != len(sub.Snapshot()) {
 			vs.Fail("relay", "requeuer with delay: %d deliveries but %d destination calls", len(sub.Snapshot()), len(calls))
 		}
 		vs.Note("%s", desc)
